@@ -154,7 +154,8 @@ def check(pid, tier):
             base += len(rs)
         # ... and from the conformance configuration (one sender, client steps urgent): these are reproducible
         # step by step, so the events the specification predicts are compared with what the real client did
-        confruns, st = tlcsched.generate(w, 'CONF_%s.cfg' % pid, ntlc, 80, seed + 1, first_id=base, tag='conf:CONF_%s.cfg' % pid)
+        confruns, st = tlcsched.generate(w, 'CONF_%s.cfg' % pid, ntlc, 80, seed + 1, first_id=base, tag='conf:CONF_%s.cfg' % pid,
+                                         prefix_every=3 if tier == 'quick' else 2)
         tlcruns += confruns
         if tier == 'thorough':
             # the same behaviours positioned around the 255 -> 0 wrap of the real modulus
